@@ -389,6 +389,7 @@ func parseOption(fd *ast.FuncDecl, pkg string, imports map[string]string, t *c19
 		return s
 	}
 	var firstBadPos token.Pos
+	reassigned := map[int]bool{}
 	ast.Inspect(lit.Body, func(n ast.Node) bool {
 		switch x := n.(type) {
 		case *ast.AssignStmt:
@@ -404,6 +405,15 @@ func parseOption(fd *ast.FuncDecl, pkg string, imports map[string]string, t *c19
 							}
 						}
 						return true
+					}
+				}
+			}
+			// a parameter that is re-assigned inside the closure (s = strings.ToLower(s)) no longer
+			// carries the caller's value verbatim
+			for _, lhs := range x.Lhs {
+				if id, ok := lhs.(*ast.Ident); ok {
+					if pi := paramIdx(id.Name); pi >= 0 {
+						reassigned[pi] = true
 					}
 				}
 			}
@@ -505,6 +515,13 @@ func parseOption(fd *ast.FuncDecl, pkg string, imports map[string]string, t *c19
 	})
 	if len(o.targets) == 0 {
 		return o, false
+	}
+	for i := range o.writes {
+		for pi := range reassigned {
+			if o.writes[i].src == ".param "+strconv.Itoa(pi) {
+				o.writes[i].src = ".derived " + strconv.Itoa(pi)
+			}
+		}
 	}
 	o.validateFirst = firstBadPos != token.NoPos && firstBadPos < assertPos
 	return o, true
@@ -819,20 +836,15 @@ func buildPlatformEntries() []c19PlatEntry {
 										e.opt = strings.TrimPrefix(fs, "options.")
 										e.conv = "none"
 										if len(y.Args) == 1 {
-											a := exprString(y.Args[0])
-											switch {
-											case strings.HasPrefix(a, "regexp.MustCompile("):
-												e.conv = "regexp"
-											case strings.HasPrefix(a, "time.Duration(") && strings.Contains(a, "time.Second"):
-												e.conv = "seconds"
-											default:
-												e.conv = "direct"
-											}
+											e.conv = classifyPlatConv(y.Args[0])
 										}
 									}
 								}
 								return true
 							})
+						}
+						if clauseNormalises(cc.Body) && e.conv != "none" && e.conv != "" {
+							e.conv = "other"
 						}
 						out = append(out, e)
 					}
@@ -842,6 +854,64 @@ func buildPlatformEntries() []c19PlatEntry {
 		}
 	}
 	return out
+}
+
+// classifyPlatConv: how the asserted YAML value reaches the option function. Only the three
+// declared shapes count: the bare variable (direct), regexp.MustCompile(<variable>) (regexp) and
+// time.Duration(<variable> * float64(time.Second)) (seconds); anything else that is applied to
+// the value (a helper, strings.TrimSpace, ...) is `other`.
+func classifyPlatConv(e ast.Expr) string {
+	if _, ok := e.(*ast.Ident); ok {
+		return "direct"
+	}
+	call, ok := e.(*ast.CallExpr)
+	if !ok || len(call.Args) != 1 {
+		return "other"
+	}
+	fun := exprString(call.Fun)
+	switch fun {
+	case "regexp.MustCompile":
+		if _, ok := call.Args[0].(*ast.Ident); ok {
+			return "regexp"
+		}
+	case "time.Duration":
+		if b, ok := call.Args[0].(*ast.BinaryExpr); ok && b.Op == token.MUL {
+			if _, ok := b.X.(*ast.Ident); ok && exprString(b.Y) == "float64(time.Second)" {
+				return "seconds"
+			}
+		}
+	}
+	return "other"
+}
+
+// clauseNormalises: does the case clause re-assign a plain variable from a call other than
+// make/len (e.g. strVal = strings.TrimSpace(strVal)) before handing it to the option?
+func clauseNormalises(body []ast.Stmt) bool {
+	found := false
+	for _, st := range body {
+		ast.Inspect(st, func(n ast.Node) bool {
+			as, ok := n.(*ast.AssignStmt)
+			if !ok {
+				return true
+			}
+			for i, lhs := range as.Lhs {
+				if _, ok := lhs.(*ast.Ident); !ok || i >= len(as.Rhs) {
+					continue
+				}
+				ast.Inspect(as.Rhs[i], func(m ast.Node) bool {
+					if c, ok := m.(*ast.CallExpr); ok {
+						f := exprString(c.Fun)
+						if f != "make" && f != "len" && f != "panic" {
+							found = true
+						}
+					}
+					return true
+				})
+			}
+			return true
+		})
+	}
+	return found
 }
 
 func exprString2(s ast.Stmt) string {
@@ -855,7 +925,7 @@ func genPlatformOptions() string {
 	var b strings.Builder
 	b.WriteString("-- GENERATED by go/cmd/extract (gen_c19.go) from /repo's working tree; do not edit.\n")
 	b.WriteString("import ScrapliModel.Generated.Options\nnamespace Scrapli.Gen.PlatformOptions\nopen Scrapli\n\n")
-	b.WriteString("/-- how the YAML value reaches the option function -/\ninductive Conv where | none | direct | regexp | seconds deriving DecidableEq, Repr\n\n")
+	b.WriteString("/-- how the YAML value reaches the option function -/\ninductive Conv where | none | direct | regexp | seconds | other deriving DecidableEq, Repr\n\n")
 	b.WriteString("/-- one `case` of the option-name switch in platform/options.go: the YAML option name, the option\nfunction it builds (`none`: no option function is called), the documented value type (text of the\npanic message, empty when the value is unused), the Go dynamic types the code accepts for the\nvalue, and the conversion applied -/\n")
 	b.WriteString("structure Entry where\n  name : Bytes\n  nameS : String\n  opt : Option Scrapli.Gen.Options.Opt\n  documented : String\n  asserted : List String\n  conv : Conv\n\n")
 	b.WriteString("def entries : List Entry := [\n")
